@@ -370,9 +370,13 @@ impl Builder<AllTerms> {
     /// ```
     #[must_use]
     pub fn connect_all_terms(mut self) -> Builder<ConnectedTerms> {
+        #[cfg(hpo_verif)]
+        crate::verif_hooks::emit(crate::verif_hooks::Event::ConnectBegin);
         for id in self.hpo_terms.keys() {
             self.create_cache_of_grandparents(id);
         }
+        #[cfg(hpo_verif)]
+        crate::verif_hooks::emit(crate::verif_hooks::Event::ConnectEnd);
         transition_state(self)
     }
 
@@ -392,6 +396,10 @@ impl Builder<AllTerms> {
     ///
     /// This method will panic if the `term_id` is not present in the Ontology
     fn create_cache_of_grandparents(&mut self, term_id: HpoTermId) {
+        #[cfg(hpo_verif)]
+        crate::verif_hooks::emit(crate::verif_hooks::Event::CacheEnter(
+            crate::annotations::AnnotationId::as_u32(&term_id),
+        ));
         let mut res = HpoGroup::default();
         let parents = self.hpo_terms.get_unchecked(term_id).parents().clone();
         for parent in &parents {
@@ -402,6 +410,14 @@ impl Builder<AllTerms> {
         }
         let term = self.hpo_terms.get_unchecked_mut(term_id);
         *term.all_parents_mut() = res.bitor(&parents);
+        #[cfg(hpo_verif)]
+        crate::verif_hooks::emit(crate::verif_hooks::Event::CacheReturn(
+            crate::annotations::AnnotationId::as_u32(&term_id),
+            term.all_parents()
+                .iter()
+                .map(|id| crate::annotations::AnnotationId::as_u32(&id))
+                .collect(),
+        ));
     }
 
     /// This method is part of the cache creation to link all terms to their
@@ -412,8 +428,16 @@ impl Builder<AllTerms> {
     /// This method will panic if the `term_id` is not present in the Ontology
     fn all_grandparents(&mut self, term_id: HpoTermId) -> &HpoGroup {
         if !self.hpo_terms.get_unchecked(term_id).parents_cached() {
+            #[cfg(hpo_verif)]
+            crate::verif_hooks::emit(crate::verif_hooks::Event::GrandparentsMiss(
+                crate::annotations::AnnotationId::as_u32(&term_id),
+            ));
             self.create_cache_of_grandparents(term_id);
         }
+        #[cfg(hpo_verif)]
+        crate::verif_hooks::emit(crate::verif_hooks::Event::GrandparentsRead(
+            crate::annotations::AnnotationId::as_u32(&term_id),
+        ));
         let term = self.hpo_terms.get_unchecked(term_id);
         term.all_parents()
     }
@@ -474,6 +498,8 @@ impl Builder<ConnectedTerms> {
 
         gene.add_term(term_id);
         self.link_gene_term(term_id, gene_id)?;
+        #[cfg(hpo_verif)]
+        crate::verif_hooks::emit(crate::verif_hooks::Event::AnnotateEnd(0));
         Ok(())
     }
 
@@ -531,6 +557,8 @@ impl Builder<ConnectedTerms> {
 
         gene.add_term(term_id);
         self.link_omim_disease_term(term_id, omim_id)?;
+        #[cfg(hpo_verif)]
+        crate::verif_hooks::emit(crate::verif_hooks::Event::AnnotateEnd(1));
 
         Ok(())
     }
@@ -589,6 +617,8 @@ impl Builder<ConnectedTerms> {
 
         gene.add_term(term_id);
         self.link_orpha_disease_term(term_id, orpha_id)?;
+        #[cfg(hpo_verif)]
+        crate::verif_hooks::emit(crate::verif_hooks::Event::AnnotateEnd(2));
 
         Ok(())
     }
@@ -802,6 +832,15 @@ impl Builder<ConnectedTerms> {
             .get_mut(term_id)
             .ok_or(HpoError::DoesNotExist)?;
 
+        #[cfg(hpo_verif)]
+        let verif_already = term.genes().contains(&gene_id);
+        #[cfg(hpo_verif)]
+        crate::verif_hooks::emit(crate::verif_hooks::Event::LinkVisit {
+            kind: 0,
+            term: crate::annotations::AnnotationId::as_u32(&term_id),
+            id: crate::annotations::AnnotationId::as_u32(&gene_id),
+            already: verif_already,
+        });
         if term.add_gene(gene_id) {
             // If the gene is already associated to the term, this branch will
             // be skipped. That is desired, because by definition
@@ -811,6 +850,13 @@ impl Builder<ConnectedTerms> {
                 self.link_gene_term(parent, gene_id)?;
             }
         }
+        #[cfg(hpo_verif)]
+        crate::verif_hooks::emit(crate::verif_hooks::Event::LinkLeave {
+            kind: 0,
+            term: crate::annotations::AnnotationId::as_u32(&term_id),
+            id: crate::annotations::AnnotationId::as_u32(&gene_id),
+            already: verif_already,
+        });
         Ok(())
     }
 
@@ -835,6 +881,15 @@ impl Builder<ConnectedTerms> {
             .get_mut(term_id)
             .ok_or(HpoError::DoesNotExist)?;
 
+        #[cfg(hpo_verif)]
+        let verif_already = term.omim_diseases().contains(&omim_disease_id);
+        #[cfg(hpo_verif)]
+        crate::verif_hooks::emit(crate::verif_hooks::Event::LinkVisit {
+            kind: 1,
+            term: crate::annotations::AnnotationId::as_u32(&term_id),
+            id: crate::annotations::AnnotationId::as_u32(&omim_disease_id),
+            already: verif_already,
+        });
         if term.add_omim_disease(omim_disease_id) {
             // If the disease is already associated to the term, this branch will
             // be skipped. That is desired, because by definition
@@ -844,6 +899,13 @@ impl Builder<ConnectedTerms> {
                 self.link_omim_disease_term(parent, omim_disease_id)?;
             }
         }
+        #[cfg(hpo_verif)]
+        crate::verif_hooks::emit(crate::verif_hooks::Event::LinkLeave {
+            kind: 1,
+            term: crate::annotations::AnnotationId::as_u32(&term_id),
+            id: crate::annotations::AnnotationId::as_u32(&omim_disease_id),
+            already: verif_already,
+        });
         Ok(())
     }
 
@@ -868,6 +930,15 @@ impl Builder<ConnectedTerms> {
             .get_mut(term_id)
             .ok_or(HpoError::DoesNotExist)?;
 
+        #[cfg(hpo_verif)]
+        let verif_already = term.orpha_diseases().contains(&orpha_disease_id);
+        #[cfg(hpo_verif)]
+        crate::verif_hooks::emit(crate::verif_hooks::Event::LinkVisit {
+            kind: 2,
+            term: crate::annotations::AnnotationId::as_u32(&term_id),
+            id: crate::annotations::AnnotationId::as_u32(&orpha_disease_id),
+            already: verif_already,
+        });
         if term.add_orpha_disease(orpha_disease_id) {
             // If the disease is already associated to the term, this branch will
             // be skipped. That is desired, because by definition
@@ -877,6 +948,13 @@ impl Builder<ConnectedTerms> {
                 self.link_orpha_disease_term(parent, orpha_disease_id)?;
             }
         }
+        #[cfg(hpo_verif)]
+        crate::verif_hooks::emit(crate::verif_hooks::Event::LinkLeave {
+            kind: 2,
+            term: crate::annotations::AnnotationId::as_u32(&term_id),
+            id: crate::annotations::AnnotationId::as_u32(&orpha_disease_id),
+            already: verif_already,
+        });
         Ok(())
     }
 
